@@ -13,14 +13,14 @@ Verdict ==
   ELSE IF ~RootFirst(Tree, C.root) THEN "root-not-first"
   ELSE IF ~DefinedOnce(Tree) THEN "defined-twice"
   ELSE IF ~AllRefsDefined(Tree) THEN "undefined-reference"
-  ELSE IF ~SameAsSet(Tree, EbnfOf(C, C.root)) THEN "structure-differs"
+  ELSE IF C.structure /\ ~SameAsSet(Tree, EbnfOf(C, C.root)) THEN "structure-differs"
   ELSE IF ~C.real.roundtrip THEN "print-parse-print-differs"
   ELSE "ok"
 Init == gi \in 1..Len(Cases) /\ done = FALSE
 Next == ~done /\ PrintT("EBNF|" \o C.id \o "|" \o Verdict) /\ done' = TRUE /\ UNCHANGED gi
 Spec == Init /\ [][Next]_<<gi, done>>
 \* the specification's own output is well formed
-SpecWellFormed == LET e == EbnfOf(C, C.root) IN RootFirst(e, C.root) /\ DefinedOnce(e) /\ AllRefsDefined(e)
+SpecWellFormed == C.structure => LET e == EbnfOf(C, C.root) IN RootFirst(e, C.root) /\ DefinedOnce(e) /\ AllRefsDefined(e)
 \* Norm is idempotent
-NormIdempotent == LET e == EbnfOf(C, C.root) IN \A k \in 1..Len(e) : NormExpr(NormExpr(e[k].expr)) = NormExpr(e[k].expr)
+NormIdempotent == C.structure => LET e == EbnfOf(C, C.root) IN \A k \in 1..Len(e) : NormExpr(NormExpr(e[k].expr)) = NormExpr(e[k].expr)
 =============================================================================
